@@ -48,6 +48,14 @@ CLAIMED.update({
     },
 })
 
+CLAIMED.update({
+    "C13": {
+        "text": "The real ControllerEngine, InformerTrackingCache, StoppableSource and watch GarbageCollector are compiled with a sync shim that makes every lock acquisition a scheduling point; a cooperative scheduler inside a testing/synctest bubble enumerates all schedules of 2-3 thread scenarios (11 curated collisions, all pairs - thorough: all triples - of single operations from two pre-states) with <= 2 (thorough 3) preemptions. Oracles: no deadlock, linearizability of the call/return history plus final observations against a sequential specification (brute force), handler registrations per kind = watches held by running controllers after the next start request, no registration and no live context after Stop. The collector is additionally run on every combination of XR references and running watches.",
+        "technique": "stateless model checking of the real code under a controlled scheduler (preemption-bounded DFS over schedules) with a linearizability oracle",
+        "note": "Interleaving granularity is lock acquisitions of engine.go/cache.go/source.go; unsynchronised accesses between them (the 'does not race' clause) are outside what this scheduler can observe. Fake manager / informer cache / controller stand in for controller-runtime.",
+    },
+})
+
 PENDING_REASON = "not claimed yet: the check for this property is still being built (design in DESIGN.md section 3); no technique switch is intended"
 
 
